@@ -78,11 +78,12 @@ def plan(prop, tier, seed):
            'weak2', 'weakonly', 'weaktb', 'tbshift_sym', 'grp_out', 'grp_in', 'grp_sib',
            'multi_shift', 'multi_shift_rev', 'multi_shift_sym', 'multi_tb']
     multi = ['multi_shift', 'multi_shift_rev', 'multi_shift_sym', 'multi_tb', 'multi_weak']
-    three = ['chain3ev', 'chain3', 'tbchain3', 'fanin', 'fanout', 'loop3shift', 'weak3', 'weak3in', 'nested', 'reenter']
+    three = ['chain3ev', 'chain3', 'tbchain3', 'fanin', 'fanout', 'loop3shift', 'weak3', 'weak3in', 'nested', 'reenter', 'shortcut3', 'shortcut3_sym',
+             'fanin_same', 'fanin_same2']
     q = tier == 'quick'
     if prop == 'C01':
         add(two, K=2 if q else 3, lazies=(True, False))
-        add(['chain3ev', 'tbchain3', 'fanin', 'weak3'] if q else three, K=2, lazies=(True, False) if not q else (True,))
+        add(['chain3ev', 'tbchain3', 'fanin', 'weak3', 'chain3', 'shortcut3'] if q else three, K=2, lazies=(True, False) if not q else (True,))
         add(['tb2', 'tbloop', 'hyb2', 'tb_ev'], K=2 if q else 3, until='symnc', caches=(False,), lazies=(True, False))
         if not q:
             add(['tb2', 'hyb2', 'weak2', 'tb_ev', 'evloop'], K=2, D=1, lazies=(True, False))
@@ -110,7 +111,7 @@ def plan(prop, tier, seed):
         add(two, K=2 if q else 3, lazies=(True, False))
         add(['hyb2', 'tb_ev'] if q else ['hyb2', 'ev2', 'tb_ev', 'evloop'], K=2 if q else 3, extra={'future_outputs': True},
             lazies=(True,) if q else (True, False))
-        add(['chain3ev', 'reenter', 'nested'] if q else three, K=2, lazies=(True, False) if not q else (True,))
+        add(['chain3ev', 'reenter', 'nested', 'shortcut3'] if q else three, K=2, lazies=(True, False) if not q else (True,))
         add(['tb2', 'hyb2', 'evloop'], K=2 if q else 3, until='symnc', caches=(False,), lazies=(True, False))
         add(['tworoutes', 'tworoutes_flat'], K=2, until=2, caches=(True,), masks='extremes', extra={'no_self': ['A', 'B', 'C', 'D']})
         if not q:
@@ -120,7 +121,7 @@ def plan(prop, tier, seed):
         add(['hyb2', 'hyb2p', 'ev2', 'evloop', 'tb_ev', 'weak2', 'weakonly', 'grp_out', 'grp_in', 'grp_sib', 'tb2', 'tb_hy'] + multi,
             K=2 if q else 3, lazies=(True, False))
         add(['multi_shift', 'multi_shift_rev'], K=3, lazies=(True,))
-        add(['chain3ev', 'chain3'] if q else three, K=2)
+        add(['chain3ev', 'chain3', 'shortcut3', 'shortcut3_sym'] if q else three, K=2, lazies=(True, False))
         add(['hyb2', 'ev2', 'tb_ev'], K=2 if q else 3, until='symnc', caches=(False,))
         add(['hyb2'] if q else ['hyb2', 'ev2'], K=2 if q else 3, extra={'future_outputs': True})
         if not q:
@@ -133,18 +134,21 @@ def plan(prop, tier, seed):
         add(['tb2', 'tb_ev', 'hyb2'], K=2 if q else 3, until='symnc', caches=(False,), lazies=(True,))
         if not q:
             add(['tb2', 'hyb2', 'tb_ev'], K=2, D=1, lazies=(True,))
-    if not q:
-        # generated family: every two-simulator topology of vk.topo.generated(); each property explores a rotating
-        # quarter (offset by property and VERIF_SEED), each selected topology completely
-        gen = T.generated()
-        off = (int(prop[1:]) + seed) % 4
-        for i, t in enumerate(gen):
-            if i % 4 != off:
-                continue
-            lz = (True,) if prop == 'C10' else (True, False)
-            for c in cfgs(t, tier, K=2, masks='all', lazies=lz):
-                c['rules'] = rules
-                jobs.append(job(prop, t, c, budget_s=240))
+    # generated families (vk.topo.generated / generated_multi): every two-simulator topology, and every pair of parallel
+    # connections with different delays.  thorough: each property explores a rotating quarter; quick: a rotating 1/32 slice.
+    # Each selected topology is explored completely (the seed rotates coverage, it does not sample behaviours).
+    gen = T.generated() + T.generated_multi()
+    if q:
+        gen = [t for t in gen if 'weak' not in t['tags']]     # same-time loops explode; curated ones and the thorough tier cover them
+    mod = 4 if not q else 48
+    off = (int(prop[1:]) * 7 + seed) % mod
+    for i, t in enumerate(gen):
+        if i % mod != off:
+            continue
+        lz = (True,) if (prop == 'C10' or q) else (True, False)
+        for c in cfgs(t, tier, K=2, masks='all' if not q else 'extremes', lazies=lz):
+            c['rules'] = rules
+            jobs.append(job(prop, t, c, budget_s=240 if not q else 60))
     # dedupe by id
     seen = set()
     out = []
